@@ -112,3 +112,126 @@ def world_block_prob(layout, table, w):
         v = (w // layout.stride[k]) % layout.arity[k]
         p *= table[ci][v]
     return p
+
+
+# ------------------------------------------------------------------------------------------------ name mapping
+# (duck-typed on problog formula nodes / Terms: .name, .probability, .group, .identifier, .is_extra, .functor,
+#  .args, str(); still no import of problog)
+
+def atoms_of(formula):
+    """Probabilistic atoms of a LogicFormula/LogicDAG as dicts: index, name (text), p (float | None for the extra
+    node of an AD), kind 'pfact' | 'ad', gid (clause id, clause-variable values), idx (head index | 'e'), head."""
+    out = []
+    for i, n, t in formula:
+        if t != "atom":
+            continue
+        is_extra = bool(getattr(n, "is_extra", False))
+        try:
+            p = float(n.probability) if n.probability is not True else None
+        except Exception:
+            p = None
+        e = {"index": i, "name": str(n.name), "p": p, "kind": "pfact", "gid": None, "idx": None, "head": None}
+        g = getattr(n, "group", None)
+        if g is not None:
+            e["kind"] = "ad"
+            e["gid"] = (str(g[0]), tuple(str(x) for x in g[1]))
+            if is_extra:
+                e["idx"] = "e"
+            else:
+                e["idx"] = int(n.identifier[2])
+                nm = n.name
+                if getattr(nm, "functor", None) == "choice" and len(nm.args) >= 3:
+                    e["head"] = str(nm.args[2])
+                else:
+                    e["head"] = str(nm)  # an AD head without body that is queried directly carries the query's name
+        out.append(e)
+    return out
+
+
+def _pclose(a, b):
+    return a is not None and abs(a - float(b)) <= 1e-9
+
+
+def map_atoms(atoms, lay):
+    """Map the tool's probabilistic atoms (atoms_of) to reference (choice, value) pairs.
+
+    Returns (per_atom, by_name, dref, unmapped): per_atom[k] = (ci, vi | 'rest') | None for the k-th atom;
+    by_name[text] = list of (ci, vi | 'rest') (several for duplicate names); dref = {ci: set(vi)} = the values that
+    have their own atom; unmapped = list of atom texts without a counterpart."""
+    per_atom = [None] * len(atoms)
+    by_name = {}
+    dref = {}
+    unmapped = []
+    used = set()
+    groups = {}
+    for k, e in enumerate(atoms):
+        if e["kind"] == "pfact":
+            cands = [ci for ci in lay.choices if ci not in used and lay.kind[ci] == "pfact"
+                     and lay.heads[ci][0] == e["name"] and _pclose(e["p"], lay.probs[ci][0])]
+            if not cands:
+                unmapped.append(e["name"])
+                continue
+            ci = cands[0]
+            used.add(ci)
+            dref.setdefault(ci, set()).add(0)
+            by_name.setdefault(e["name"], []).append((ci, 0))
+            per_atom[k] = (ci, 0)
+        else:
+            groups.setdefault(e["gid"], []).append((k, e))
+    for gid in sorted(groups):
+        members = groups[gid]
+        vs = gid[1]
+
+        def fits(ci, exact):
+            if lay.kind[ci] != "ad" or ci in used:
+                return False
+            if exact:
+                if lay.key[ci] != vs:
+                    return False
+            elif sorted(lay.key[ci]) != sorted(vs):
+                return False
+            for k, e in members:
+                if e["idx"] == "e":
+                    continue
+                i = e["idx"]
+                if i >= len(lay.heads[ci]) or lay.heads[ci][i] != e["head"] or not _pclose(e["p"], lay.probs[ci][i]):
+                    return False
+            return True
+
+        cands = [ci for ci in lay.choices if fits(ci, True)] or [ci for ci in lay.choices if fits(ci, False)]
+        if not cands:
+            unmapped.extend(e["name"] for k, e in members)
+            continue
+        ci = cands[0]
+        used.add(ci)
+        dref.setdefault(ci, set())
+        for k, e in members:
+            tg = (ci, "rest") if e["idx"] == "e" else (ci, e["idx"])
+            if e["idx"] != "e":
+                dref[ci].add(e["idx"])
+            by_name.setdefault(e["name"], []).append(tg)
+            per_atom[k] = tg
+    return per_atom, by_name, dref, unmapped
+
+
+def literal_mask(lay, dref, target, positive):
+    ci, vi = target
+    if vi == "rest":
+        m = lay.full & ~lay.values_mask(ci, dref.get(ci, ()))
+    else:
+        m = lay.vmask(ci, vi)
+    return m if positive else (lay.full & ~m)
+
+
+def describe_world(lay, w):
+    out = []
+    for ci in lay.choices:
+        v = lay.value(ci, w)
+        hs = lay.heads[ci]
+        if v < len(hs):
+            out.append("%s#%d=%s" % (lay.kind[ci], ci, hs[v]))
+        else:
+            out.append("%s#%d(%s)=none" % (lay.kind[ci], ci, "/".join(str(h) for h in hs)))
+    return "{" + ", ".join(out) + "}"
+
+
